@@ -55,7 +55,7 @@ BASE_CONSTANTS = {
     "G_LeaderFlush": "TRUE", "G_StaleTermAppend": "TRUE",
     "G_ConfigCommittedFirst": "TRUE", "G_OwnTermBeforeConfig": "TRUE", "G_PromoteAfterRound": "TRUE",
     "G_NonVoterNoElection": "TRUE", "G_StepDownWhenDemoted": "TRUE",
-    "MaxRoundOrd": 3, "SegSize": 1024, "UpdBytes": 300, "MaxSnaps": 0, "FixD4": "TRUE", "FixD5": "TRUE", "FixD11": "TRUE", "FixD3": "TRUE", "RoundFastSet": "{TRUE}", "MaxCfgReqs": 0, "EdAddPromote": "{}", "EdAddNonvoter": "{}", "EdPromote": "{}", "EdDemote": "{}", "EdRemove": "{}", "EdForceRemove": "{}",
+    "MaxRoundOrd": 3, "SegSize": 1024, "UpdBytes": 300, "MaxSnaps": 0, "FixD4": "TRUE", "FixD5": "TRUE", "FixD11": "TRUE", "FixD3": "TRUE", "FixD13": "TRUE", "RoundFastSet": "{TRUE}", "MaxCfgReqs": 0, "EdAddPromote": "{}", "EdAddNonvoter": "{}", "EdPromote": "{}", "EdDemote": "{}", "EdRemove": "{}", "EdForceRemove": "{}",
     "FixD1": "TRUE", "FixD2": "TRUE",
 }
 
